@@ -109,7 +109,7 @@ def class_table(tree, root, enum_name, enum_vals, with_directive):
         known[st.name] = None
         if st.name in abstract_fields:
             pass
-        rows.append((st.name, enum_vals[op.attr], directive, inherited))
+        rows.append((st.name, enum_vals[op.attr], directive, inherited, parent))
     return rows
 
 
@@ -120,7 +120,7 @@ def coq_str(s):
 def emit_table(name, rows):
     out = [f"Definition {name} : list cls := ["]
     lines = []
-    for cname, opcode, directive, fields in rows:
+    for cname, opcode, directive, fields, _parent in rows:
         fs = "; ".join(f"({coq_str(n)}, {e[0]}{''.join(' ' + str(a) for a in e[1])})" for n, e in fields)
         lines.append(f"  mk_cls {coq_str(cname)} {opcode} {coq_str(directive)} [{fs}]")
     out.append(";\n".join(lines))
@@ -329,6 +329,9 @@ def generate(src):
     erows = class_table(ex, "Operation", "ExpressionOperations", ev, False)
     crows = class_table(cf, "Instruction", "CallFrameInstructions", cv, True)
     out.append(emit_table("expr_table", erows))
+    out.append("")
+    # subclasses of OpConst (what make_const_op may choose among)
+    out.append("Definition const_class_names : list string := [" + "; ".join(coq_str(r[0]) for r in erows if r[4] == "OpConst") + "].")
     out.append("")
     out.append(emit_table("cfi_table", crows))
     out.append("")
